@@ -23,6 +23,23 @@ def lexer_tables(ck, prog):
         ck.anchor(r[0] == "variant" and r[1] == TOKENKIND, "keyword arm '%s' returns %r" % (lit, r))
         kws[lit] = r[2]
     out["keywords"] = kws
+    if _tb is not ib:
+        # the table lives in a helper returning Option: the fallback is the constant given to unwrap_or in identifier()
+        default = []
+        for _, t in ib.calls():
+            if (Body.callee(t) or "").endswith("Option::<T>::unwrap_or"):
+                for a in t["args"]:
+                    c = a.get("const") if isinstance(a, dict) else None
+                    pl = (a.get("move") or a.get("copy")) if isinstance(a, dict) else None
+                    if c is None and pl is not None and not pl["p"]:
+                        d = ib.single_def(pl["l"])
+                        if d and d[0] == "stmt" and isinstance(d[3], dict):
+                            if isinstance(d[3].get("agg"), dict) and d[3]["agg"].get("adt") == TOKENKIND:
+                                default.append(("variant", TOKENKIND, d[3]["agg"]["variant"]))
+                            elif isinstance(d[3].get("use"), dict):
+                                c = d[3]["use"].get("const")
+                    if c and c.get("ty", "").endswith(TOKENKIND):
+                        default.append(("variant", TOKENKIND, c["val"].rsplit("::", 1)[-1]))
     out["ident_default"] = default
     out["ident_pred_fn"] = scan_predicates(ib)
 
